@@ -28,6 +28,16 @@ type Case struct {
 	UseNum   bool          `json:"use_number,omitempty"`
 	Disallow bool          `json:"disallow_unknown,omitempty"`
 	DocKind  string        `json:"doc_kind,omitempty"`
+	// Straddle > 0 (Decoder only): the stream starts with white space such that this many bytes of
+	// each document lie before the Decoder's 32 KiB buffer boundary and the rest arrive with the refill.
+	Straddle int `json:"straddle,omitempty"`
+}
+
+func (c Case) stream(doc []byte) []byte {
+	if c.Straddle <= 0 {
+		return doc
+	}
+	return append(bytes.Repeat([]byte{' '}, 32768-c.Straddle), doc...)
 }
 
 func newTarget(c Case) reflect.Value {
@@ -52,7 +62,7 @@ func stdStep(c Case, doc []byte, target any) (s step) {
 	}()
 	switch c.API {
 	case "Decoder":
-		d := stdjson.NewDecoder(bytes.NewReader(doc))
+		d := stdjson.NewDecoder(bytes.NewReader(c.stream(doc)))
 		if c.UseNum {
 			d.UseNumber()
 		}
@@ -78,7 +88,7 @@ func segStep(c Case, doc []byte, target any) (s step, comparable bool) {
 	in := append([]byte{}, doc...)
 	switch c.API {
 	case "Decoder":
-		d := segjson.NewDecoder(bytes.NewReader(in))
+		d := segjson.NewDecoder(bytes.NewReader(c.stream(in)))
 		if c.UseNum {
 			d.UseNumber()
 		}
@@ -183,6 +193,9 @@ func genCaseFor(rt *rapid.T, td jgen.TypeDesc, typ reflect.Type) Case {
 		c.API = "Decoder"
 		c.UseNum = rapid.Bool().Draw(rt, "usenum")
 		c.Disallow = rapid.Bool().Draw(rt, "disallow")
+		if rapid.IntRange(0, 3).Draw(rt, "straddle") == 0 {
+			c.Straddle = rapid.IntRange(1, 48).Draw(rt, "nbefore")
+		}
 	}
 	if rapid.IntRange(0, 2).Draw(rt, "prepop") == 0 {
 		r := jgen.GenValue(rt, typ, jgen.ValOpts{MaxLen: 3, Avoid: map[string]bool{"badraw": true}})
@@ -304,6 +317,9 @@ func runOne(rt *rapid.T, test string, c Case, typ reflect.Type) {
 	evid.Eval(1)
 	f, inf := checkCaseInfo(c)
 	evid.Label("api." + c.API)
+	if c.Straddle > 0 {
+		evid.Label("decoder.document-straddles-buffer-refill")
+	}
 	evid.Label("doc." + c.DocKind)
 	evid.Label(fmt.Sprintf("history.len%d", len(c.Docs)))
 	if c.Init != nil {
